@@ -299,8 +299,8 @@ def run_r9(F, rep):
 def run_r10(F, rep):
     """C13-R10: suffixed / annotated integer digits are converted exactly"""
     rep.rule("C13-R10", "suffixed and annotated integer literals are exact: on the way from the digits of an integer token to a value of an integer kind (typed_literal / the TypedInteger "
-                       "arm of real()) the digits are parsed with an integer type; today every integer token is evaluated by integer() as an f64 first, so digits above 2^53 are rounded "
-                       "before the kind conversion sees them")
+                       "arm of real()) the digits are parsed with an integer type (directly or in a helper the literal is handed to); evaluating them only through integer()'s f64 rounds "
+                       "digits above 2^53 before the kind conversion sees them")
     its = {it["name"]: it for it in F.syn("mech_interpreter.lib") if it["k"] == "fn" and it.get("mod", "").endswith("literals") and it["name"] in ("typed_literal", "integer", "real") and it.get("body")}
     if not rep.check(len(its) == 3, "C13-R10", "anchor:typed_literal-integer-real", "typed_literal / integer / real not found: %s" % sorted(its)):
         return
@@ -315,6 +315,12 @@ def run_r10(F, rep):
         return out
     via_f64 = any(m[2] == "parse" and re.sub(r"[:<>\s]", "", m[3] or "") == "f64" for m in find(its["integer"]["body"], "mcall"))
     exact_path = int_parse(its["typed_literal"]["body"])
+    # helpers of the same module that typed_literal calls with the literal (one level)
+    mod_fns = {it["name"]: it for it in F.syn("mech_interpreter.lib") if it["k"] == "fn" and it.get("mod", "").endswith("literals") and it.get("body")}
+    for c in find(its["typed_literal"]["body"], "call"):
+        h = (path_of(c[1]) or "").split("::")[-1]
+        if h in mod_fns and h not in ("literal", "kind_annotation", "typed_literal") and any(x[0] == "path" and x[1] == "ltrl" for a in c[2] for x in walk(a)):
+            exact_path += int_parse(mod_fns[h]["body"])
     # the TypedInteger arm of real()
     for m in find(its["real"]["body"], "match"):
         for a in m[2]:
